@@ -200,7 +200,8 @@ def run(c):
             for value, specs in gen_headers(rng, L, per_len):
                 # header names are case-insensitive; the Range header is not always the last one
                 hn = rng.choice(["Range"] * 5 + ["range", "RANGE", "rAnGe"])
-                tail = rng.choice([""] * 3 + ["Accept: */*\r\n", "X-After: 1\r\nUser-Agent: vf\r\n"])
+                tail = rng.choice([""] * 3 + ["Accept: */*\r\n", "X-After: 1\r\nUser-Agent: vf\r\n", "If-Range: \"abc\"\r\n", "If-Range: Wed, 21 Oct 2015 07:28:00 GMT\r\n", "Accept-Encoding: gzip, deflate, br\r\n",
+                                              "If-None-Match: *\r\n", "If-Modified-Since: Thu, 01 Jan 2099 00:00:00 GMT\r\n", "Cache-Control: no-cache\r\nPragma: no-cache\r\n", "Sec-Fetch-Dest: video\r\nSec-Fetch-Mode: no-cors\r\n", "TE: trailers\r\nConnection: keep-alive\r\n"])
                 raw = ("GET %s HTTP/1.1\r\nHost: localhost\r\n%s: %s\r\n%s\r\n" % (name, hn, value, tail)).encode("utf-8")
                 if hn != "Range":
                     c.count("range_header_name_spelled_" + hn)
